@@ -29,6 +29,7 @@ THEOREMS = ["PorepyVerif.C17." + t for t in (
     "boundary_data_only_on_boundary_rows",
     "upwind_boundary_rows",
     "upVal_eq_matvec",
+    "discretize_defined",
     "transport_balance",
     "transport_conserves",
     "transport_conserves_iter",
@@ -42,7 +43,7 @@ THEOREMS = ["PorepyVerif.C17." + t for t in (
 LEAN_MODULES = ["PorepyVerif.C17.Props"]
 AUDIT = "PorepyVerif/C17/Audit.lean"
 DRIVER = "PorepyVerif/C17/Driver.lean"
-N = {"quick": 600, "thorough": 12000}
+N = {"quick": 350, "thorough": 10000}
 RULE = ("one grid per case, built by the real code: CartGrid 1/2/3-d, StructuredTriangleGrid, StructuredTetrahedralGrid, the 2-d subdomain of "
         "pp.meshing.cart_grid with one fracture (split faces = boundary faces inside the domain), or a raw signed incidence handed to pp.Grid "
         "(random cell graph, both normal orientations on boundary faces; 15% ill-formed: a face with three cells). Scenarios: 'matrices' = random "
